@@ -851,10 +851,12 @@ class SCFG2ASTTransformer:
         if type(block) is PythonASTBlock:
             if len(block.jump_targets) == 2:
                 test: ast.expr
-                if type(block.tree[-1]) in (ast.Name, ast.Compare):
-                    test = cast(ast.expr, block.tree[-1])
+                # The test is either a bare expression (if / while) or an
+                # expression statement (header of a desugared for-loop).
+                if isinstance(block.tree[-1], ast.Expr):
+                    test = block.tree[-1].value
                 else:
-                    test = cast(ast.Expr, block.tree[-1]).value
+                    test = cast(ast.expr, block.tree[-1])
                 body: list[ast.stmt] = cast(
                     list[ast.stmt],
                     self.codegen(self.lookup(block.jump_targets[0])),
